@@ -16,13 +16,19 @@ for mp in sorted(glob.glob("meta/C*.json")):
     c = chk.Check(m["id"], "quick", 1, None)
     ok, out = c.build_engine()
     if not ok:
-        print("engine build failed for", m["id"], out[-2000:]); sys.exit(1)
+        print("engine build failed for", m["id"], out[-2000:]); continue
     if m.get("gen"):
         rc, out, dt = chk.run([c.engine_bin, "gen", "-out", os.path.join(chk.COQ, "Gen")], cwd=c.build, timeout=900)
         if rc != 0:
-            print("translator failed for", m["id"], out[-2000:]); sys.exit(1)
+            print("translator failed for", m["id"], out[-2000:]); continue
 PY
 [ $? -eq 0 ] || exit 1
 ./tools/coqproject.sh
-timeout 3000 make -C coq -j16 || exit 1
+# build each claimed property's target on its own: one property that does not build must not stop the others
+# (its own check will report it)
+for m in meta/C*.json; do
+  t=$(python3 -c "import json,sys; m=json.load(open('$m')); print('' if m.get('disabled') else m['properties_file'][:-2]+'.vo')")
+  [ -n "$t" ] && { timeout 3000 make -C coq -j16 "$t" >/dev/null 2>&1 || echo "setup: $t did not build (its check will report it)"; }
+done
 echo setup ok
+exit 0
